@@ -125,8 +125,22 @@ class G:
             return sorted(tab)
         return tab
 
+    def balanced(self, n):
+        """sizes that look uniform to a cheap test (first = last = k, total = k*n) but are not"""
+        k = self.r.choice([1, 1, 2, 3])
+        sz = [k] * n
+        if n >= 4:
+            for _ in range(self.r.randint(1, 2)):
+                i, j = self.r.sample(range(1, n - 1), 2)
+                if sz[i] > 0:
+                    sz[i] -= 1
+                    sz[j] += 1
+        return sz
+
     def sizes(self, n, hi=3):
         c = self.r.random()
+        if c < 0.06 and n >= 4:
+            return self.balanced(n)
         if c < 0.08:
             k = self.r.choice([1, 2, 2, 3])
             return [k] * n                      # all segments of equal length
@@ -166,7 +180,12 @@ class G:
         w = [self.r.randrange(labels) for _ in range(nn)]
         x = [self.r.randrange(elabels) for _ in range(ne)]
 
+        bal = ne >= 4 and nn > 0 and self.r.random() < 0.08
+
         def lists():
+            if bal:
+                ll = [[self.r.randrange(nn) for _ in range(m)] for m in self.balanced(ne)]
+                return ll
             ll = [[self.r.randrange(nn) for _ in range(self.r.randint(0, maxar))] if nn > 0 else [] for _ in range(ne)]
             c = self.r.random()
             if ne >= 2 and c < 0.2:             # two hyperedges with identical (or reversed / rotated) lists
@@ -243,9 +262,13 @@ class G:
         nodes = [self.r.randrange(labels) for _ in range(nn)]
         edges = [self.r.randrange(elabels) for _ in range(ne)]
         adj = []
-        for _ in range(ne):
+        bal = ne >= 4 and nn > 0 and self.r.random() < 0.08
+        ba, bb = (self.balanced(ne), self.balanced(ne)) if bal else ([], [])
+        for e_i in range(ne):
             a = self.r.randint(0, maxar) if nn else 0
             b = self.r.randint(0, maxar) if nn else 0
+            if bal:
+                a, b = ba[e_i], bb[e_i]
             adj.append([[self.r.randrange(nn) for _ in range(a)], [self.r.randrange(nn) for _ in range(b)]])
         if ne >= 2 and self.r.random() < 0.15:
             i, j = self.r.sample(range(ne), 2)
